@@ -333,6 +333,37 @@ Definition serve (c : cfg) (fs : fsT) (hp : heap) (rq : request) (body : bytes) 
         end
     end.
 
+(* named temporary files present each time the protected handler returns (before any deferred call has run):
+   the same loop as [attempts], recording the file-system component after each invocation *)
+Fixpoint attempts_tmps (fuel : nat) (c : cfg) (orig outReq : request) (size : Z) (scripts : list (list event))
+         (attempt : Z) (st : lst) : list Z :=
+  match fuel with
+  | O => []
+  | S f =>
+      match one_attempt c orig outReq attempt (script_of scripts attempt) st with
+      | (Done _, st') => [Z.of_nat (length (fnames (l_fs st')))]
+      | (Again, st') =>
+          let body' := match l_body st' with Some r => Some (mr_seek0 r) | None => None end in
+          let '(hp', outReq') := copyRequest (l_heap st') orig size in
+          Z.of_nat (length (fnames (l_fs st'))) ::
+          attempts_tmps f c orig outReq' size scripts (attempt + 1)
+            {| l_fs := l_fs st'; l_heap := hp'; l_body := body'; l_defers := l_defers st'; l_invs := l_invs st' |}
+      end
+  end.
+
+Definition serve_tmps (c : cfg) (fs : fsT) (hp : heap) (rq : request) (body : bytes) (scripts : list (list event)) : list Z :=
+  if checkLimit c rq then []
+  else
+    match mb_new (memReq c) (maxReq c) body fs with
+    | (_, inl _) => []
+    | (fs1, inr rd) =>
+        let size := r_len rd in
+        let bodyv := if size =? 0 then None else Some rd in
+        let '(hp1, outReq) := copyRequest hp rq size in
+        attempts_tmps 11 c rq outReq size scripts 1
+          {| l_fs := fs1; l_heap := hp1; l_body := bodyv; l_defers := []; l_invs := [] |}
+    end.
+
 (* ------------------------------------------------------------------------------------------------ *)
 (* integer interface of the correspondence harness                                                    *)
 (* ------------------------------------------------------------------------------------------------ *)
@@ -409,11 +440,22 @@ Definition enc_inv (i : invrec) : list Z :=
 Definition client_hdrs (h : hmap) : hmap := filter (fun kv => negb (fst kv =? H_CONTENT_LENGTH)) h.
 Definition client_body (method : Z) (v : cview) : bytes := if method =? HEAD then [] else v_body v.
 
-(* op ints: method urlId bodyId bodyLen chunked nReqHdr {k v} nScripts {nEvents {tag a b}}
-   obs: origCL status nh {k v} bodyLen bodySum tempFilesLeft nInv {method url cl teLen nh {k v} readLen readSum} *)
+(* framing of an exchange: 0 declared length | 1 chunked | 2 + 2 cut + (0|1): the same, and the ResponseWriter handed
+   to ServeHTTP accepts only the first [cut] body bytes (its peer went away): what was written to it — all the
+   model of ServeHTTP says — reaches the client up to there; whatever ServeHTTP does on the failed Write, the
+   named temporary files are gone when it returns *)
+Definition framing_chunked (f : Z) : Z := if f <? 2 then f else f mod 2.
+Definition framing_cut (f : Z) : Z := if f <? 2 then -1 else (f - 2) / 2.
+Definition cut_body (cut : Z) (b : bytes) : bytes := if cut <? 0 then b else ztake cut b.
+
+(* op ints: method urlId bodyId bodyLen framing nReqHdr {k v} nScripts {nEvents {tag a b}}
+   obs: origCL status nh {k v} bodyLen bodySum tempFilesLeft nInv {method url cl teLen nh {k v} readLen readSum}
+        {tempFilesAtHandlerReturn} *)
 Definition exchange (c : cfg) (op : list Z) : list Z :=
   match op with
-  | method :: url :: bid :: blen_ :: chunked :: nh :: r =>
+  | method :: url :: bid :: blen_ :: framing :: nh :: r =>
+      let chunked := framing_chunked framing in
+      let cut := framing_cut framing in
       let '(hd, r1) := dec_hdrs (Z.to_nat nh) r in
       let scripts := match r1 with ns :: r2 => dec_scripts (Z.to_nat ns) r2 | [] => [] end in
       let body := gen_body bid blen_ in
@@ -425,12 +467,27 @@ Definition exchange (c : cfg) (op : list Z) : list Z :=
       let res := serve c fs0 hp rq body scripts in
       let v := res_view res in
       [q_cl rq; v_status v] ++ enc_hdrs (client_hdrs (v_hdr v))
-      ++ [blen (client_body method v); checksum (client_body method v);
+      ++ [blen (cut_body cut (client_body method v)); checksum (cut_body cut (client_body method v));
           Z.of_nat (length (fnames (res_fs res))); Z.of_nat (length (res_invs res))]
       ++ flat_map enc_inv (res_invs res)
       ++ (if res_fuel_ok res then [] else [-1])
   | _ => []
   end.
 
+(* ... followed by the number of named temporary files at each return of the handler *)
+Definition exchange_tmps (c : cfg) (op : list Z) : list Z :=
+  match op with
+  | method :: url :: bid :: blen_ :: framing :: nh :: r =>
+      let chunked := framing_chunked framing in
+      let '(hd, r1) := dec_hdrs (Z.to_nat nh) r in
+      let scripts := match r1 with ns :: r2 => dec_scripts (Z.to_nat ns) r2 | [] => [] end in
+      let body := gen_body bid blen_ in
+      let rq := {| q_method := method; q_url := 0%nat; q_hdr := 1%nat;
+                   q_cl := if chunked =? 0 then blen body else -1;
+                   q_te := if chunked =? 0 then [] else [1] |} in
+      serve_tmps c {| fnext := 0; fnames := [] |} [OUrl url; OHdr hd] rq body scripts
+  | _ => []
+  end.
+
 Definition run (cfgl : list Z) (ops : list (list Z)) : list (list Z) :=
-  let c := dec_cfg cfgl in map (exchange c) ops.
+  let c := dec_cfg cfgl in map (fun op => exchange c op ++ exchange_tmps c op) ops.
